@@ -60,6 +60,8 @@ pub enum AB {
     BoolCol(u16),
     /// column of the first table = column of the last table (equi-join shape; picks type-compatible columns)
     ColEq(u16, u16),
+    /// sargable shape: column <op> literal (the shape the index rule looks for)
+    Sarg(u16, u8, i8),
 }
 
 #[derive(Clone, Debug, Serialize, Deserialize, Hash)]
@@ -99,7 +101,7 @@ fn val_for(ty: Ty, v: u8) -> Val {
     }
 }
 
-fn build_tables(ts: &[ATable]) -> Vec<TableData> {
+pub fn build_tables(ts: &[ATable]) -> Vec<TableData> {
     ts.iter()
         .enumerate()
         .map(|(ti, t)| {
@@ -114,9 +116,9 @@ fn build_tables(ts: &[ATable]) -> Vec<TableData> {
 }
 
 /// Columns visible to an expression: (table position in FROM, column index, type).
-type Scope = Vec<(u8, u8, Ty)>;
+pub type Scope = Vec<(u8, u8, Ty)>;
 
-fn scope_of(tables: &[TableData], which: &[u8]) -> Scope {
+pub fn scope_of(tables: &[TableData], which: &[u8]) -> Scope {
     let mut s = vec![];
     for (pos, t) in which.iter().enumerate() {
         for (ci, (_, ty)) in tables[*t as usize].cols.iter().enumerate() {
@@ -171,7 +173,7 @@ fn cmp_op(o: u8) -> CmpOp {
     [CmpOp::Eq, CmpOp::Ne, CmpOp::Lt, CmpOp::Le, CmpOp::Gt, CmpOp::Ge][o as usize % 6]
 }
 
-fn res_b(a: &AB, sc: &Scope) -> E {
+pub fn res_b(a: &AB, sc: &Scope) -> E {
     match a {
         AB::CmpN(o, x, y) => E::Cmp(cmp_op(*o), Box::new(res_n(x, sc)), Box::new(res_n(y, sc))),
         AB::CmpT(o, x, y) => E::Cmp(cmp_op(*o), Box::new(res_t(x, sc)), Box::new(res_t(y, sc))),
@@ -204,6 +206,17 @@ fn res_b(a: &AB, sc: &Scope) -> E {
                 None => E::Cmp(CmpOp::Eq, Box::new(E::Lit(Val::Int(1))), Box::new(E::Lit(Val::Int(1)))),
             }
         }
+        AB::Sarg(c, o, k) => {
+            let (t, ci, ty) = sc[pick_idx(*c, sc.len())];
+            let lit = match ty {
+                Ty::Int | Ty::BigInt => Val::Int((*k % 12) as i64),
+                Ty::Double => Val::Dbl((*k % 8) as f64 / 2.0),
+                Ty::Text => Val::Text(TEXTS[(*k as u8) as usize % 8].to_string()),
+                Ty::Bool => Val::Bool(*k % 2 == 0),
+            };
+            let op = if ty == Ty::Bool { CmpOp::Eq } else { cmp_op(*o) };
+            E::Cmp(op, Box::new(E::Col(t, ci)), Box::new(E::Lit(lit)))
+        }
         AB::BoolCol(r) => match pick_col(sc, *r, &|t| t == Ty::Bool) {
             Some((t, c, _)) => E::Col(t, c),
             None => E::Cmp(CmpOp::Eq, Box::new(E::Lit(Val::Int(1))), Box::new(E::Lit(Val::Int((*r % 2) as i64)))),
@@ -211,13 +224,13 @@ fn res_b(a: &AB, sc: &Scope) -> E {
     }
 }
 
-enum Resolved {
+pub enum Resolved {
     Q(Query),
     Update { table: u8, sets: Vec<(u8, E)>, pred: Option<E> },
     Delete { table: u8, pred: Option<E> },
 }
 
-fn resolve_q(q: &AQ, tables: &[TableData]) -> Resolved {
+pub fn resolve_q(q: &AQ, tables: &[TableData]) -> Resolved {
     let nt = tables.len() as u8;
     match q {
         AQ::Select { t, ncols, computed, distinct, pred, order, limit } => {
@@ -312,7 +325,7 @@ fn load(db: &mut Db, tables: &[TableData]) -> Result<(), String> {
     Ok(())
 }
 
-fn features_of(q: &Resolved) -> Vec<String> {
+pub fn features_of(q: &Resolved) -> Vec<String> {
     let mut f: Vec<&'static str> = vec![];
     let mut add = |e: &Option<E>, f: &mut Vec<&'static str>| {
         if let Some(e) = e {
@@ -385,7 +398,7 @@ fn features_of(q: &Resolved) -> Vec<String> {
     v
 }
 
-fn show_rows(rows: &[Vec<Val>]) -> String {
+pub fn show_rows(rows: &[Vec<Val>]) -> String {
     let mut v: Vec<String> = rows.iter().map(|r| format!("({})", r.iter().map(|v| v.sql()).collect::<Vec<_>>().join(","))).collect();
     let n = v.len();
     if n > 14 {
@@ -425,8 +438,8 @@ pub fn run_case(c: &QCase) -> CaseOut {
         match &rq {
             Resolved::Q(q) => {
                 let want = match q.eval(&tables) {
-                    Ok(w) => w,
-                    Err(EvalErr::Undefined(_)) => {
+                    Ok(w) if !q.undefined_somewhere(&tables) => w,
+                    _ => {
                         out.labels.push("discarded.implementation_defined".into());
                         continue;
                     }
@@ -632,6 +645,7 @@ pub fn gen_ab() -> BoxedStrategy<AB> {
         2 => (gen_at(), any::<u8>(), any::<bool>()).prop_map(|(a, p, n)| AB::Like(a, p, n)),
         1 => any::<u16>().prop_map(AB::BoolCol),
         2 => (any::<u16>(), any::<u16>()).prop_map(|(a, b)| AB::ColEq(a, b)),
+        4 => (any::<u16>(), 0u8..6, any::<i8>()).prop_map(|(c, o, k)| AB::Sarg(c, o, k)),
     ];
     leaf.prop_recursive(3, 12, 2, |inner| {
         prop_oneof![
@@ -650,7 +664,7 @@ fn gen_table() -> BoxedStrategy<ATable> {
     }).prop_map(|(tys, rows)| ATable { tys, rows }).boxed()
 }
 
-fn gen_aq() -> BoxedStrategy<AQ> {
+pub fn gen_aq() -> BoxedStrategy<AQ> {
     prop_oneof![
         8 => (0u8..2, 0u8..5, prop::option::weighted(0.3, gen_an()), prop::bool::weighted(0.15), prop::option::weighted(0.85, gen_ab()), prop::collection::vec((0u8..5, any::<bool>()), 0..3), prop::option::weighted(0.25, (0u8..7, 0u8..4)))
             .prop_map(|(t, ncols, computed, distinct, pred, order, limit)| AQ::Select { t, ncols, computed, distinct, pred, order, limit }),
@@ -753,7 +767,7 @@ fn ab_variants(a: &AB) -> Vec<AB> {
             v.push(t());
             v.extend(at_variants(x).into_iter().map(|z| AB::Like(z, *p, *n)));
         }
-        AB::BoolCol(_) | AB::ColEq(..) => v.push(t()),
+        AB::BoolCol(_) | AB::ColEq(..) | AB::Sarg(..) => v.push(t()),
     }
     v
 }
@@ -765,7 +779,7 @@ fn opt_ab_variants(p: &Option<AB>) -> Vec<Option<AB>> {
     }
 }
 
-fn aq_variants(q: &AQ) -> Vec<AQ> {
+pub fn aq_variants(q: &AQ) -> Vec<AQ> {
     let mut v = vec![];
     match q {
         AQ::Select { t, ncols, computed, distinct, pred, order, limit } => {
@@ -899,6 +913,12 @@ pub fn run_sql_expect(c: &SqlExpect) -> CaseOut {
         Err(e) => return CaseOut::fail(Failure::new("create_failed", e)),
     };
     for s in &c.setup {
+        if s == "@analyze" {
+            if let Err(e) = db.analyze() {
+                return CaseOut::fail(Failure::new("setup_failed", format!("ANALYZE: {}", e.text())));
+            }
+            continue;
+        }
         if let Err(e) = db.exec(s) {
             return CaseOut::fail(Failure::new("setup_failed", format!("`{s}`: {}", e.text())));
         }
